@@ -360,8 +360,18 @@ def r04_2(prog, cfg, rid="R04.2", slots=None, floor=None, only=None):
                             k_ = const_of(it[3]) * (1 if it[1] == "+" else -1)
                         d_ = 0 if op in ("<", ">=") else 1
                         if c_ + d_ + k_ > 0:
-                            off_by_one.append((tb.term.get("line"), tree_text(c)))
-                            continue
+                            # `if(present == 0 || present > count) fail; else present--;`: a decrement of the subject on
+                            # every path from the bounded edge to the access takes the slack out again
+                            from .c15 import must_pass
+                            edge = tb.succ[0 if op in ("<", "<=") else 1]
+                            svid = core[1] if is_var(core) else None
+
+                            def decr(y, svid=svid):
+                                return (svid is not None and y["k"] == "assign" and y.get("base_id") == svid and not y.get("deref") and y.get("lhs") == y.get("base")
+                                        and (y.get("op") in ("--", "--post") or (y.get("op") == "-=" and "rhs" in y and (const_of(y["rhs"]["tree"]) or 0) >= c_ + d_ + k_)))
+                            if not (c_ + d_ + k_ == 1 and edge is not None and must_pass(f, edge, b.id, i, decr)):
+                                off_by_one.append((tb.term.get("line"), tree_text(c)))
+                                continue
                 bounded.add((tb.id, 0 if op in ("<", "<=") else 1))
             # definitions of the subject variable (entry for parameters and member subjects)
             starts = []
